@@ -175,7 +175,7 @@ def _abandon(L, n):
 
 
 # ---------------------------------------------------------------- global state snapshot
-def global_snapshot():
+def global_snapshot(subclasses=True):
     """digest of every module-level and class-level container of every yaml.* module (generic walk, no attribute names)"""
     items = []
     seen = set()
@@ -217,6 +217,22 @@ def global_snapshot():
                         items.append('%s.%s.%s=%s' % (mn, av.__name__, cn, val(cv)))
             else:
                 items.append('%s.%s=%s' % (mn, an, val(av)))
+    # registries of every live subclass of the library's resolver / constructor / representer classes (user code owns the
+    # registrations, but no load / dump / scan / ... call may ever change them)
+    seen_cls = set()
+    stack = [yaml.resolver.BaseResolver, yaml.constructor.BaseConstructor, yaml.representer.BaseRepresenter] if subclasses else []
+    while stack:
+        c = stack.pop()
+        if c in seen_cls:
+            continue
+        seen_cls.add(c)
+        stack.extend(c.__subclasses__())
+        if getattr(c, '__module__', '').startswith('yaml'):
+            continue
+        for k in ('yaml_constructors', 'yaml_multi_constructors', 'yaml_representers', 'yaml_multi_representers', 'yaml_implicit_resolvers', 'yaml_path_resolvers'):
+            if k in c.__dict__:
+                items.append('subclass %s.%s.%s=%s' % (c.__module__, c.__qualname__, k, val(c.__dict__[k])))
+    items.sort()
     return items
 
 
@@ -399,6 +415,46 @@ def check_stream(T, ids):
     T.nontrivial += 1 if len(ids) >= 2 else 0
 
 
+# ---------------------------------------------------------------- dump-side streams: each document of dump_all stands alone
+def _dv_shared():
+    s = [1, 2]
+    return {'a': s, 'b': s}
+
+
+DUMP_DOCS = [('shared', _dv_shared), ('plain', lambda: {'k': [1, 'x']}), ('rec', _rec), ('objs', _objshared), ('str', lambda: 'needs: quoting'), ('date-twice', lambda: (lambda d: [d, d])(__import__('datetime').date(2001, 1, 1)))]
+
+
+def check_dump_stream(T, ids, mode):
+    """dump_all(docs) must be the concatenation of what each document gives on its own (explicit starts), also when the
+    SAME object is handed over twice, when it is changed in between, and when the documents are short-lived temporaries"""
+    for dn, Dm in (('py', yaml.Dumper), ('c', yaml.CDumper)):
+        T.evaluations += 1
+        case = {'dump_docs': list(ids), 'mode': mode, 'dumper': dn}
+        expected = []
+        cache = {}
+
+        def feed():
+            for n, i in enumerate(ids):
+                if mode == 'same-objects':
+                    v = cache.setdefault(i, DUMP_DOCS[i][1]())
+                elif mode == 'mutated' and n and isinstance(cache.get('last'), (list, dict)) and i == ids[n - 1]:
+                    v = cache['last']
+                    (v.append('more') if isinstance(v, list) else v.__setitem__('more', n))
+                else:
+                    v = DUMP_DOCS[i][1]()
+                cache['last'] = v
+                expected.append(yaml.dump(v, Dumper=Dm, explicit_start=True))
+                yield v
+        try:
+            text = yaml.dump_all(feed(), Dumper=Dm, explicit_start=True)
+        except Exception as e:
+            T.violation('dump-streams', 'exception:' + type(e).__name__, case, detail=str(e)[:200])
+            continue
+        if text != ''.join(expected):
+            T.violation('dump-streams', 'document-not-independent', case, detail='%s dump_all gives %r but the documents dumped one by one give %r' % (dn, text[:300], ''.join(expected)[:300]))
+    T.nontrivial += 1 if len(ids) >= 2 else 0
+
+
 # ---------------------------------------------------------------- engine interface
 def plan(tier, seed):
     q = tier == 'quick'
@@ -413,6 +469,7 @@ def plan(tier, seed):
     # quick: all histories of length 2, and length 3 for the first calls with index % 8 == seed % 8
     jobs += [('hist', i, (3 if (not q or i % 8 == seed % 8) else 2), base) for i in range(n)]
     jobs += [('streams', k, 16) for k in range(16)]
+    jobs.append(('dumpstreams',))
     return jobs
 
 
@@ -454,6 +511,13 @@ def run_job(job, T):
         for v in acc['violations']:
             T.violation('histories', v['kind'], {'history': v['history']}, detail=v['detail'])
         T.sample('histories', {'first': pool()[first][0], 'depth': depth, 'executions': acc['executions']})
+    elif kind == 'dumpstreams':
+        ids = ()
+        for n in (1, 2, 3):
+            for ids in itertools.product(range(len(DUMP_DOCS)), repeat=n):
+                for mode in ('fresh', 'same-objects', 'mutated'):
+                    check_dump_stream(T, ids, mode)
+        T.sample('dump-streams', {'dump_docs': list(ids)})
     elif kind == 'streams':
         _, k, np_ = job
         i = 0
@@ -469,6 +533,9 @@ def run_job(job, T):
 
 
 def replay(sub, case, T):
+    if sub == 'dump-streams':
+        check_dump_stream(T, tuple(case['dump_docs']), case['mode'])
+        return
     if sub == 'streams':
         check_stream(T, tuple(case['docs']))
         return
